@@ -1,0 +1,238 @@
+//! Verification hooks (compiled only with `--cfg pricelevel_verif`).
+//!
+//! Drop-in wrappers around the shared-memory primitives the crate uses
+//! (`AtomicU64`, `AtomicUsize`, `DashMap`, `SegQueue`).  Every operation first
+//! reports itself to a process-global [`Hook`] (`before`: a deterministic
+//! scheduler may block the calling thread there), then delegates to the real
+//! type, then reports the result (`after`).  With no hook installed the
+//! wrappers only delegate.  Objects are numbered in creation order.
+
+use std::any::Any;
+use std::sync::atomic::{AtomicUsize as StdUsize, Ordering};
+use std::sync::{Arc, RwLock};
+
+/// Observer of shared-memory operations.
+pub trait Hook: Send + Sync {
+    /// Called before operation `op` on object `obj` of kind `kind`.
+    fn before(&self, obj: usize, kind: &'static str, op: &'static str, num: u64, a: Option<&dyn Any>);
+    /// Called after the operation with its numeric result and/or returned value.
+    fn after(&self, obj: usize, op: &'static str, num: u64, r: Option<&dyn Any>);
+}
+
+static HOOK: RwLock<Option<Arc<dyn Hook>>> = RwLock::new(None);
+static NEXT_ID: StdUsize = StdUsize::new(0);
+
+/// Install or remove the global hook.
+pub fn set_hook(h: Option<Arc<dyn Hook>>) {
+    *HOOK.write().unwrap() = h;
+}
+
+/// Id the next created object will get.
+pub fn next_id() -> usize {
+    NEXT_ID.load(Ordering::SeqCst)
+}
+
+fn hook() -> Option<Arc<dyn Hook>> {
+    HOOK.read().unwrap().clone()
+}
+
+fn fresh() -> usize {
+    NEXT_ID.fetch_add(1, Ordering::SeqCst)
+}
+
+macro_rules! atomic_wrapper {
+    ($name:ident, $std:ty, $prim:ty, $kind:expr) => {
+        /// Instrumented atomic integer.
+        #[derive(Debug)]
+        pub struct $name {
+            id: usize,
+            inner: $std,
+        }
+        impl $name {
+            /// See the std type.
+            pub fn new(v: $prim) -> Self {
+                Self { id: fresh(), inner: <$std>::new(v) }
+            }
+            /// See the std type.
+            pub fn load(&self, o: Ordering) -> $prim {
+                let h = hook();
+                if let Some(h) = &h {
+                    h.before(self.id, $kind, "load", 0, None);
+                }
+                let r = self.inner.load(o);
+                if let Some(h) = &h {
+                    h.after(self.id, "load", r as u64, None);
+                }
+                r
+            }
+            /// See the std type.
+            pub fn store(&self, v: $prim, o: Ordering) {
+                let h = hook();
+                if let Some(h) = &h {
+                    h.before(self.id, $kind, "store", v as u64, None);
+                }
+                self.inner.store(v, o);
+                if let Some(h) = &h {
+                    h.after(self.id, "store", 0, None);
+                }
+            }
+            /// See the std type.
+            pub fn fetch_add(&self, v: $prim, o: Ordering) -> $prim {
+                let h = hook();
+                if let Some(h) = &h {
+                    h.before(self.id, $kind, "fetch_add", v as u64, None);
+                }
+                let r = self.inner.fetch_add(v, o);
+                if let Some(h) = &h {
+                    h.after(self.id, "fetch_add", r as u64, None);
+                }
+                r
+            }
+            /// See the std type.
+            pub fn fetch_sub(&self, v: $prim, o: Ordering) -> $prim {
+                let h = hook();
+                if let Some(h) = &h {
+                    h.before(self.id, $kind, "fetch_sub", v as u64, None);
+                }
+                let r = self.inner.fetch_sub(v, o);
+                if let Some(h) = &h {
+                    h.after(self.id, "fetch_sub", r as u64, None);
+                }
+                r
+            }
+        }
+        impl serde::Serialize for $name {
+            fn serialize<S: serde::Serializer>(&self, s: S) -> Result<S::Ok, S::Error> {
+                self.inner.serialize(s)
+            }
+        }
+        impl<'de> serde::Deserialize<'de> for $name {
+            fn deserialize<D: serde::Deserializer<'de>>(d: D) -> Result<Self, D::Error> {
+                Ok(Self { id: fresh(), inner: <$std>::deserialize(d)? })
+            }
+        }
+    };
+}
+
+atomic_wrapper!(AtomicU64, std::sync::atomic::AtomicU64, u64, "u64");
+atomic_wrapper!(AtomicUsize, std::sync::atomic::AtomicUsize, usize, "usize");
+
+/// Instrumented `crossbeam::queue::SegQueue`.
+#[derive(Debug)]
+pub struct SegQueue<T> {
+    id: usize,
+    inner: crossbeam::queue::SegQueue<T>,
+}
+
+impl<T: Any> SegQueue<T> {
+    /// See the crossbeam type.
+    pub fn new() -> Self {
+        Self { id: fresh(), inner: crossbeam::queue::SegQueue::new() }
+    }
+    /// See the crossbeam type.
+    pub fn push(&self, v: T) {
+        let h = hook();
+        if let Some(h) = &h {
+            h.before(self.id, "queue", "push", 0, Some(&v));
+        }
+        self.inner.push(v);
+        if let Some(h) = &h {
+            h.after(self.id, "push", 0, None);
+        }
+    }
+    /// See the crossbeam type.
+    pub fn pop(&self) -> Option<T> {
+        let h = hook();
+        if let Some(h) = &h {
+            h.before(self.id, "queue", "pop", 0, None);
+        }
+        let r = self.inner.pop();
+        if let Some(h) = &h {
+            h.after(self.id, "pop", r.is_some() as u64, r.as_ref().map(|x| x as &dyn Any));
+        }
+        r
+    }
+}
+
+/// Instrumented `dashmap::DashMap`.
+#[derive(Debug)]
+pub struct DashMap<K: Eq + std::hash::Hash, V> {
+    id: usize,
+    inner: dashmap::DashMap<K, V>,
+}
+
+impl<K: Eq + std::hash::Hash + Any, V: Any> DashMap<K, V> {
+    /// See the dashmap type.
+    pub fn new() -> Self {
+        Self { id: fresh(), inner: dashmap::DashMap::new() }
+    }
+    /// See the dashmap type.
+    pub fn insert(&self, k: K, v: V) -> Option<V> {
+        let h = hook();
+        if let Some(h) = &h {
+            h.before(self.id, "map", "insert", 0, Some(&v));
+        }
+        let r = self.inner.insert(k, v);
+        if let Some(h) = &h {
+            h.after(self.id, "insert", r.is_some() as u64, r.as_ref().map(|x| x as &dyn Any));
+        }
+        r
+    }
+    /// See the dashmap type.
+    pub fn remove(&self, k: &K) -> Option<(K, V)> {
+        let h = hook();
+        if let Some(h) = &h {
+            h.before(self.id, "map", "remove", 0, Some(k));
+        }
+        let r = self.inner.remove(k);
+        if let Some(h) = &h {
+            h.after(self.id, "remove", r.is_some() as u64, r.as_ref().map(|x| &x.1 as &dyn Any));
+        }
+        r
+    }
+    /// See the dashmap type.
+    pub fn get(&self, k: &K) -> Option<dashmap::mapref::one::Ref<'_, K, V>> {
+        let h = hook();
+        if let Some(h) = &h {
+            h.before(self.id, "map", "get", 0, Some(k));
+        }
+        let r = self.inner.get(k);
+        if let Some(h) = &h {
+            h.after(self.id, "get", r.is_some() as u64, r.as_ref().map(|x| x.value() as &dyn Any));
+        }
+        r
+    }
+    /// See the dashmap type.
+    pub fn iter(&self) -> dashmap::iter::Iter<'_, K, V> {
+        let h = hook();
+        if let Some(h) = &h {
+            h.before(self.id, "map", "iter", 0, None);
+            h.after(self.id, "iter", self.inner.len() as u64, None);
+        }
+        self.inner.iter()
+    }
+    /// See the dashmap type.
+    pub fn is_empty(&self) -> bool {
+        let h = hook();
+        if let Some(h) = &h {
+            h.before(self.id, "map", "is_empty", 0, None);
+        }
+        let r = self.inner.is_empty();
+        if let Some(h) = &h {
+            h.after(self.id, "is_empty", r as u64, None);
+        }
+        r
+    }
+    /// See the dashmap type.
+    pub fn len(&self) -> usize {
+        let h = hook();
+        if let Some(h) = &h {
+            h.before(self.id, "map", "len", 0, None);
+        }
+        let r = self.inner.len();
+        if let Some(h) = &h {
+            h.after(self.id, "len", r as u64, None);
+        }
+        r
+    }
+}
